@@ -228,10 +228,14 @@ fn plain_write_case(put: bool, env: u8, fault: bool) {
             if !put {
                 assert!(now_a == src, "KV-C11: after a set the key holds the supplied value");
             } else if ia != kfs::NONE && now_a != kfs::NONE {
-                assert!(now_a == ia && st.ino[ia as usize].content == 50, "KV-C04: a put on an existing key never changes its content");
-                assert!(st.ino[ia as usize].mt_s == prea.mt_s && st.ino[ia as usize].mt_ns == prea.mt_ns || maintained,
-                        "KV-C09: a put on an existing key keeps its queue position");
-                assert!(kfs::accessed(&st.ino[ia as usize]) || maintained, "KV-C09: a put on an existing key marks it as used");
+                // (maintenance inside this very put may have evicted the old entry first: then the put inserts)
+                assert!((now_a == ia && st.ino[ia as usize].content == 50) || (maintained && now_a == src),
+                        "KV-C04: a put on an existing key never changes its content");
+                if now_a == ia {
+                    assert!(st.ino[ia as usize].mt_s == prea.mt_s && st.ino[ia as usize].mt_ns == prea.mt_ns || maintained,
+                            "KV-C09: a put on an existing key keeps its queue position");
+                    assert!(kfs::accessed(&st.ino[ia as usize]) || maintained, "KV-C09: a put on an existing key marks it as used");
+                }
             } else if ia == kfs::NONE {
                 assert!(now_a == src, "KV-C11: a put on an absent key inserts the supplied value");
             }
@@ -320,5 +324,41 @@ kfs_harness! {
     fn plain_ops_sanity_twin() {
         plain_write_case(false, kfs::ENV_NONE, false);
         assert!(false, "KV-SANITY: reachable end of harness");
+    }
+}
+
+// ---- invalid names: InvalidInput and nothing touched (C16) ----------------------------------------
+kfs_harness! {
+    #[kani::unwind(48)]
+    #[kani::stub(crate::raw_cache::prune, crate::kv_kfs::spec_prune)]
+    fn plain_invalid_names() {
+        kfs::reset();
+        kfs::mkdir(kfs::D_W);
+        kfs::mkdir(kfs::D_X);
+        let ia = kfs::install(kfs::D_W, kfs::S_A, kfs::any_published(kfs::S_A, 50));
+        let src = kfs::user_source(kfs::D_X, 0, kfs::S_A, 9, true);
+        let cache = Cache::new(kfs::path_of(kfs::D_W, kfs::NONE), kani::any());
+        let which: u8 = kani::any();
+        kani::assume(which < 4);
+        let name = match which {
+            0 => "",
+            1 => ".x",
+            2 => "/x",
+            _ => "\\x",
+        };
+        let op: u8 = kani::any();
+        kani::assume(op < 4);
+        let from = kfs::path_of(kfs::D_X, 0);
+        let invalid = match op {
+            0 => matches!(cache.get(name), Err(e) if e.kind() == std::io::ErrorKind::InvalidInput),
+            1 => matches!(cache.touch(name), Err(e) if e.kind() == std::io::ErrorKind::InvalidInput),
+            2 => matches!(cache.set(name, &from), Err(e) if e.kind() == std::io::ErrorKind::InvalidInput),
+            _ => matches!(cache.put(name, &from), Err(e) if e.kind() == std::io::ErrorKind::InvalidInput),
+        };
+        assert!(invalid, "KV-C16: operations given an empty name, or one starting with '.', '/' or '\\', fail with InvalidInput");
+        let st = kfs::k();
+        assert!(st.calls == 0, "KV-C16: an operation on an invalid name modifies nothing (no filesystem call at all)");
+        assert!(kfs::bound(kfs::D_W, kfs::S_A) == ia && kfs::bound(kfs::D_X, 0) == src, "KV-C16: an operation on an invalid name modifies nothing");
+        kani::cover!(op == 2 && which == 3, "set with a backslash name");
     }
 }
